@@ -36,13 +36,19 @@ W(s) == CASE s = ""     -> 0
 
 Obj(t, id, v, vis, cs, ts, uid, user, lon, lat, tags, refs, mems) ==
     [t |-> t, id |-> id, v |-> v, vis |-> vis, cs |-> cs, ts |-> ts, uid |-> uid, user |-> user,
-     lon |-> lon, lat |-> lat, tags |-> tags, refs |-> refs, mems |-> mems]
+     lon |-> lon, lat |-> lat, tags |-> tags, refs |-> refs, mems |-> mems,
+     locs |-> <<>>]      \* ways only: <<>> = no node locations, else one <<lon, lat>> per node reference (see WayL)
 
 \* shorthands: F = full metadata (version, changeset, timestamp, uid, user), B = bare
 NodeF(id, v, cs, ts, uid, user, lon, lat, tags) == Obj("n", id, v, TRUE, cs, ts, uid, user, lon, lat, tags, <<>>, <<>>)
 NodeB(id, lon, lat, tags) == Obj("n", id, 0, TRUE, 0, 0, 0, "", lon, lat, tags, <<>>, <<>>)
 WayF(id, v, cs, ts, uid, user, refs, tags) == Obj("w", id, v, TRUE, cs, ts, uid, user, NoCoord, NoCoord, tags, refs, <<>>)
 WayB(id, refs, tags) == Obj("w", id, 0, TRUE, 0, 0, 0, "", NoCoord, NoCoord, tags, refs, <<>>)
+\* ways that carry the location of every node they reference ("LocationsOnWays": osmformat.proto Way.lat / Way.lon,
+\* <nd ref= lat= lon=/>, n1x..y..).  A way has locations for ALL its references or for none.
+L(lon, lat) == <<lon, lat>>
+WayL(id, v, cs, ts, uid, user, refs, locs, tags) == [WayF(id, v, cs, ts, uid, user, refs, tags) EXCEPT !.locs = locs]
+WayLB(id, refs, locs, tags) == [WayB(id, refs, tags) EXCEPT !.locs = locs]
 RelF(id, v, cs, ts, uid, user, mems, tags) == Obj("r", id, v, TRUE, cs, ts, uid, user, NoCoord, NoCoord, tags, <<>>, mems)
 RelB(id, mems, tags) == Obj("r", id, 0, TRUE, 0, 0, 0, "", NoCoord, NoCoord, tags, <<>>, mems)
 Del(t, id, v, cs, ts, uid, user) == Obj(t, id, v, FALSE, cs, ts, uid, user, NoCoord, NoCoord, <<>>, <<>>, <<>>)
@@ -95,8 +101,16 @@ Data(ds) ==
             RelB(6, <<M("n", 8, "ra"), M("w", 5, "ra"), M("n", -4, "ra"), M("r", 6, "rb"), M("w", -2, "ra"), M("r", -3, "ra")>>, <<>>),
             RelB(-3, <<M("r", 6, "rb"), M("n", 3, "ra"), M("w", 5, "rb"), M("w", -2, "ra")>>, <<>>),
             RelB(4, <<M("w", -2, "ra"), M("n", 8, "ra"), M("r", -3, "rb")>>, <<>>) >>
+    [] ds = "wayloc" ->                                                \* ways with node locations (carried by the PBF module only)
+         << NodeB(1, 10, 20, <<>>),
+            WayL(2, 1, 5, 240, 8, "bob", <<1, 2, 5>>, <<L(10, 20), L(-30, 50), L(10, 20)>>, <<T("k1", "v1")>>),
+            WayB(3, <<5, 1>>, <<>>),                                                \* a way without locations between two with
+            WayLB(4, <<8, -4, 3, 8>>, <<L(100, 100), L(-100, -100), L(7, -3), L(100, 100)>>, <<>>),
+            WayLB(5, <<7>>, <<L(0, 0)>>, <<T("k2", "v2")>>),
+            WayLB(-6, <<9, 8, 7>>, <<L(13, 3), L(3, 23), L(-7, 13)>>, <<>>) >>      \* fits granularity 1000 only with offset 300
     [] OTHER -> <<>>
 
+\* (data sets every format module can be run on; "wayloc" needs an encoder / decoder model for node locations of ways)
 AllDataSets == {"empty", "tiny", "tiny2", "basic", "wrap", "long", "kids", "role250", "meta", "hist", "delta"}
 
 (* ---- what a format can carry (the quantifier of the property is restricted per format to this) *)
@@ -107,7 +121,8 @@ O5mCarries(o) ==
     /\ (o.uid = 0 => o.user = "")                      \* the anonymous user is the pair ("", "")
     /\ (~o.vis => o.tags = <<>> /\ o.refs = <<>> /\ o.mems = <<>> /\ o.lon = NoCoord)
     /\ (o.vis /\ o.t = "n" => o.lon # NoCoord)
-PbfCarries(o) == o.t = "n" /\ o.vis => o.lon # NoCoord  \* lat / lon are required fields of a visible node
+PbfCarries(o) == /\ (o.t = "n" /\ o.vis => o.lon # NoCoord)  \* lat / lon are required fields of a visible node
+                 /\ (o.locs # <<>> => o.t = "w" /\ Len(o.locs) = Len(o.refs))   \* Way.lat / Way.lon run parallel to Way.refs
 \* (OSM XML and OPL carry every object of the catalogue)
 
 IsPrefix(a, b) == Len(a) <= Len(b) /\ a = SubSeq(b, 1, Len(a))
